@@ -1,6 +1,8 @@
 package main
 
 import (
+	"runtime/debug"
+	"runtime/pprof"
 	"encoding/json"
 	"flag"
 	"fmt"
@@ -80,7 +82,14 @@ func main() {
 	witnesses := flag.Int("witnesses", 0, "number of ok-path input models to emit for native cross-validation")
 	ov := overlayFlag{}
 	flag.Var(ov, "overlay", "virtual=real (repeatable)")
+	cpuprof := flag.String("cpuprofile", "", "")
 	flag.Parse()
+	debug.SetGCPercent(400)
+	if *cpuprof != "" {
+		f, _ := os.Create(*cpuprof)
+		pprof.StartCPUProfile(f)
+		defer pprof.StopCPUProfile()
+	}
 
 	res := &Result{Entry: *entry, Package: *pkgPath, Params: map[string]int{}, Solver: *solverKind}
 	t0 := time.Now()
@@ -199,5 +208,6 @@ func main() {
 	sort.Strings(res.Assumptions)
 	res.MaxDepth = e.MaxDepth
 	res.Terms = smt.NumTerms()
+	pprof.StopCPUProfile()
 	writeOut()
 }
